@@ -104,6 +104,28 @@ type Contracts struct {
 	Axioms []*Lemma
 	Files  []string
 	Assumptions []string // trusted/abstract/etc. scan results
+	dupTrusted  [][2]*FuncContract
+}
+
+// CheckDuplicates verifies that repeated trusted contracts carry the same clauses.
+func (cs *Contracts) CheckDuplicates() error {
+	text := func(fc *FuncContract) string {
+		var sb strings.Builder
+		for _, c := range fc.Requires {
+			sb.WriteString("R:" + c.Expr.String() + ";")
+		}
+		for _, c := range fc.Ensures {
+			sb.WriteString("E:" + c.Expr.String() + ";")
+		}
+		sb.WriteString(strings.Join(fc.ModSrc, ","))
+		return sb.String()
+	}
+	for _, p := range cs.dupTrusted {
+		if text(p[0]) != text(p[1]) {
+			return fmt.Errorf("trusted contract for %s.%s differs between %s:%d and %s:%d", p[0].Pkg, p[0].Name, p[0].File, p[0].Line, p[1].File, p[1].Line)
+		}
+	}
+	return nil
 }
 
 func NewContracts() *Contracts {
@@ -218,10 +240,15 @@ func (cs *Contracts) ParseContractFile(path, pkgPath string) error {
 			cur = &FuncContract{Pkg: pk, Name: name, Mode: "", Loops: map[int]*LoopSpec{}, Nullable: map[string]bool{},
 				File: path, Line: ll.line, Trusted: kw == "trusted", Sig: sig, Extra: map[string]string{}}
 			key := pk + "." + name
-			if _, dup := cs.Funcs[key]; dup {
-				return fail("duplicate contract for %s", key)
+			if prev, dup := cs.Funcs[key]; dup {
+				if !(prev.Trusted && cur.Trusted) {
+					return fail("duplicate contract for %s", key)
+				}
+				// the same trusted dependency contract may be repeated per package; texts must agree
+				cs.dupTrusted = append(cs.dupTrusted, [2]*FuncContract{prev, cur})
+			} else {
+				cs.Funcs[key] = cur
 			}
-			cs.Funcs[key] = cur
 		case "spec":
 			if !strings.HasPrefix(rest, "func ") {
 				return fail("expected 'spec func'")
